@@ -478,6 +478,11 @@ fn live_strategy() -> BoxedStrategy<LiveCase> {
 pub struct WasmCfgCase {
     pub user: Vec<(String, Option<bool>)>,
     pub text: String,
+    /// what the page does with the same Linter after the first check, before checking again:
+    /// 0 import a new word, 1 import it again, 2 check as Markdown, 3 check as plain text,
+    /// 4 read the configuration, 5 export the words, 6 clear the ignore list
+    #[serde(default)]
+    pub later: Vec<u8>,
 }
 
 pub fn test_wasm_config(c: &WasmCfgCase, ctx: &mut CaseCtx) -> Result<(), String> {
@@ -518,6 +523,69 @@ pub fn test_wasm_config(c: &WasmCfgCase, ctx: &mut CaseCtx) -> Result<(), String
             "harper.js linter with config {json} reports {:?} on {:?}; the in-process model (curated overlaid with user choices) gives {:?}",
             a, c.text, b
         ));
+    }
+    // the switches stay in force whatever else the page does with the Linter afterwards
+    // (the imported words occur in no text, so the expected lints do not change)
+    if !c.later.is_empty() {
+        let mut new_words = 0usize;
+        for (k, step) in c.later.iter().enumerate() {
+            let r = crate::core::catch(|| match step % 7 {
+                0 => {
+                    new_words += 1;
+                    linter.import_words(vec![format!("zqpageword{k}")]);
+                }
+                1 => linter.import_words(vec!["zqpageword0".to_string()]),
+                2 => {
+                    let _ = linter.lint(c.text.clone(), harper_wasm::Language::Markdown);
+                }
+                3 => {
+                    let _ = linter.lint(c.text.clone(), harper_wasm::Language::Plain);
+                }
+                4 => {
+                    let _ = linter.get_lint_config_as_json();
+                }
+                5 => {
+                    let _ = linter.export_words();
+                }
+                _ => linter.clear_ignored_lints(),
+            });
+            if r.is_err() {
+                ctx.class("skipped_c01_panic");
+                return Ok(());
+            }
+        }
+        ctx.class_if(new_words > 0, "words_imported_between_two_checks");
+        let again = match crate::core::catch(|| linter.lint(c.text.clone(), harper_wasm::Language::Plain)) {
+            Ok(l) => l,
+            Err(_) => {
+                ctx.class("skipped_c01_panic");
+                return Ok(());
+            }
+        };
+        let mut a2: Vec<(usize, usize, String)> = again.iter().map(|l| (l.span().start, l.span().end, l.message())).collect();
+        a2.sort();
+        if a2 != b {
+            return Err(format!(
+                "harper.js linter with config {json}: after the steps {:?} (0 import a new word, 1 import a known word, 2/3 check as Markdown/plain, 4 read the configuration, 5 export words, 6 clear ignores) the same Linter reports {:?} on {:?}; the model (curated overlaid with the user's choices) gives {:?}",
+                c.later, a2, c.text, b
+            ));
+        }
+        // and the configuration it reports still carries every explicit choice
+        let dump: serde_json::Value = serde_json::from_str(&linter.get_lint_config_as_json()).map_err(|e| e.to_string())?;
+        let mut last: std::collections::BTreeMap<&str, Option<bool>> = Default::default();
+        for (k, v) in &c.user {
+            last.insert(k.as_str(), *v);
+        }
+        for (k, v) in last {
+            if let Some(v) = v {
+                if dump.get(k) != Some(&serde_json::Value::Bool(v)) {
+                    return Err(format!(
+                        "harper.js linter with config {json}: after the steps {:?} get_lint_config_as_json reports {:?} for {k:?}, the user chose {v}",
+                        c.later, dump.get(k)
+                    ));
+                }
+            }
+        }
     }
     Ok(())
 }
@@ -790,13 +858,14 @@ pub fn run(run: &mut Run) {
         "harper_js_config",
         n,
         || {
-            (user_entries(), multi_rule_text())
-                .prop_map(|(user, text)| WasmCfgCase { user, text })
+            (user_entries(), multi_rule_text(), proptest::collection::vec(prop_oneof![3 => Just(0u8), 4 => 1u8..7], 0..5))
+                .prop_map(|(user, text, later)| WasmCfgCase { user, text, later })
                 .boxed()
         },
         test_wasm_config,
     );
     run.require_class("harper_js_config", "has_lints", (n / 3) as u64);
+    run.require_class("harper_js_config", "words_imported_between_two_checks", (n / 4) as u64);
 
     let n = run.n(200, 5_000);
     let saved = run.threads;
